@@ -10,6 +10,8 @@ Code side: small states/operators with Gaussian-integer data on every geometry c
 Python only drives and observes (numpy.einsum on the tensors' public data); TLC recomputes every value.
 """
 
+import json
+import os
 import random
 
 import numpy as np
@@ -67,7 +69,8 @@ def routes_for(g):
             r += [dict(entry="gate", mode=m)] * 2
         r.append(dict(entry="gate_split", mode="split"))
         r.append(dict(entry="gate_with_auto_swap", mode="swap"))
-        r.append(dict(entry="gate_with_auto_swap", mode="swap", variant="info"))
+        if g.cls == "mps":
+            r.append(dict(entry="gate_with_auto_swap", mode="swap", variant="info"))
         for m in ("direct", "lazy", "dm", "zipup"):
             r.append(dict(entry="gate_nonlocal", mode=m))
             r.append(dict(entry="gate_with_submpo", mode=m))
@@ -182,6 +185,7 @@ class Trace:
         self.scaled = False
         self.dropped = 0
         self.eps = 3e-4 if self.single else 1e-9
+        self.ftol = 3e-3 if self.single else 1e-8      # relative tolerance of the float (relational) comparisons
         self.cap = 1e3 if self.single else 1e7
         if exact:
             small = self.single or geom.densedim() > 100
@@ -197,7 +201,7 @@ class Trace:
         if with_gauges:
             # positive integer bond gauges: the state is the network with the gauges multiplied onto its bonds
             self.gauges = {ix: np.array([1.0, 2.0, 1.0, 3.0][: self.tn.ind_size(ix)]) for ix in self.tn.inner_inds()}
-            self.cap = min(self.cap, 1e5)
+            self.cap = min(self.cap, 4e4)
         o = self.observe(self.tn)
         self.cur = o["v"]
         self.maxabs = float(np.max(np.abs(self.cur), initial=0.0))
@@ -238,17 +242,19 @@ class Trace:
             self.gauges = {}
 
     def budget(self, which):
-        b = self.cap / max(self.maxabs, 1.0)
+        b = (min(self.cap, 4e4) if self.scaled else self.cap) / max(self.maxabs, 1.0)
         return b ** 0.5 if which == "sandwich" else b
 
     def step(self, a):
         """apply one gate; returns False if it was not attempted (magnitude budget)"""
         g = self.g
         G = np.asarray(a["G"], dtype=complex)
-        if self.maxabs * growth(G, a["which"]) > self.cap:
+        simple = a["entry"] == "gate_simple"
+        # comparisons up to a positive scalar multiply observation and reference in TLC's 32-bit integers
+        cap = min(self.cap, 4e4) if (self.scaled or (simple and a["mode"] == "renorm")) else self.cap
+        if self.maxabs * growth(G, a["which"]) > cap:
             self.dropped += 1
             return False
-        simple = a["entry"] == "gate_simple"
         if simple and self.gauges is None:
             self.gauges = {}
         if not simple:
@@ -266,6 +272,9 @@ class Trace:
                "exc": "", "psi": [], "ongrid": False, "psiq": [], "recv": [], "recv_checked": False, "qd": 0, "recvqd": 0,
                "cls": g.cls, "k": len(a["pos"])}
         out = None
+        # an in-place call that raises half way may leave its receiver modified: the trace continues on a copy
+        # taken before the call (what the receiver looks like after the failure is still observed and logged)
+        backup = (tn0.copy(), None if self.gauges is None else dict(self.gauges)) if inplace else None
         try:
             out = U.apply_entry(tn0, g, a, gauges=self.gauges)
         except Exception as ex:  # noqa  an observation: the table decides whether a rejection is allowed
@@ -301,13 +310,13 @@ class Trace:
                 elif renorm:
                     nr = np.vdot(ref, ref)
                     c = np.vdot(ref, v) / nr if abs(nr) > 0 else 0.0
-                    rec["qd"] = qdiff(v, c * ref, 1e-7) + (0 if (abs(c.imag) <= 1e-7 * abs(c) and c.real > 0) else 777)
+                    rec["qd"] = qdiff(v, c * ref, self.ftol) + (0 if (abs(c.imag) <= self.ftol * abs(c) and c.real > 0) else 777)
                 else:
-                    rec["qd"] = qdiff(v, ref, 3e-3 if self.single else 1e-8)
+                    rec["qd"] = qdiff(v, ref, self.ftol)
                 if (not inplace) and (out is not tn0):
                     r0 = self.observe(tn0)
                     rec["recv_checked"] = True
-                    rec["recvqd"] = qdiff(r0["v"], self.cur, 1e-10) if r0["v"] is not None else 999990
+                    rec["recvqd"] = qdiff(r0["v"], self.cur, self.ftol * 1e-2) if r0["v"] is not None else 999990
             self.tn = out
             if v is not None:
                 self.cur = np.asarray(v).reshape(-1)
@@ -325,7 +334,9 @@ class Trace:
                 rec["recv"] = sr or []
             elif not self.exact:
                 rec["recv_checked"] = True
-                rec["recvqd"] = qdiff(o["v"], self.cur, 1e-10) if o["v"] is not None else 999990
+                rec["recvqd"] = qdiff(o["v"], self.cur, self.ftol * 1e-2) if o["v"] is not None else 999990
+            if backup is not None:
+                self.tn, self.gauges = backup
         self.log(rec)
         return True
 
@@ -358,6 +369,9 @@ def decorate(rng, g, a):
     if e == "gate_with_mpo" and len(set(g.dims)) == 1 and rng.random() < 0.5:
         a["fill"] = rng.choice(["full", "minimal"])
     if e == "gate_simple":
+        # library default cutoff (1e-10): singular values that are exactly zero (rank deficient integer gates) are
+        # dropped, the bond gauges stay invertible; nothing non-zero is truncated
+        a["cutoff"] = None
         a["smudge"] = rng.choice([None, 0.0])
         a["renorm_default"] = rng.random() < 0.5
         if k == 2 and g.adjacent(*a["pos"]) and rng.random() < 0.4:
@@ -419,7 +433,7 @@ def replay(beh, tid, seed, dtype):
             a["variant"] = rng.choice(["tensor", "split", "network"])
         if a["entry"] == "Tensor.gate":
             a["variant"] = rng.choice(["gate_", "transposed-alias", "no-preserve", "returned"])
-        if a["entry"] == "gate_with_auto_swap":
+        if a["entry"] == "gate_with_auto_swap" and g.cls == "mps":
             a["variant"] = rng.choice(["", "info"])
         if a["entry"] == "op_lazy":
             a["full"] = rng.random() < 0.3
@@ -552,6 +566,10 @@ def run(ctx):
     # 5. the numpy transcription of the reference agrees with the specification
     rrecs = ref_records(99 + ctx.seed, 60 if quick else 600, 10 ** 6)
 
+    if os.environ.get("C06_DUMP"):      # debugging aid: keep the records that are about to be judged
+        with open(os.environ["C06_DUMP"], "w") as fh:
+            for r in recs:
+                fh.write(json.dumps(r, default=str) + "\n")
     fails = ctx.validate("C06_Trace", "Trace.cfg", recs, name="gates", ntraces=ntr, chunk=3000)
     rfails = ctx.validate("C06_Trace", "Trace.cfg", rrecs, name="refbinding", ntraces=len(rrecs))
     if rfails:
